@@ -23,17 +23,21 @@ RES = ["c01_fd_res_two_s", "c01_fd_res_not_o_gconst", "c01_fd_res_kind_p_sconst"
        "c01_fd_unknown_constant", "c01_fd_index_full"]
 
 
+# measured not to finish within 1500 s / 14 GB (out of memory): kept out of both tiers, stated in DESIGN.md 8.1
+HEAVY = {"c01_fd_1111", "c01_ld_0111", "c01_fd_unknown_constant"}
+
+
 def spec(tier, cap_k=2, names=None):
     if names is None:
-        names = QUICK if tier == "quick" else ALL_FD + ALL_LD + ALL_FG + ALL_LG + RES
+        names = QUICK if tier == "quick" else [n for n in ALL_FD + ALL_LD + ALL_FG + ALL_LG + RES if n not in HEAVY]
     to = 600 if tier == "quick" else 3000
-    mem = 12 if tier == "quick" else 24
+    mem = 12 if tier == "quick" else 16
     hs = [Harness(n, unwind=cap_k + 2, unwindset=US, timeout=to, mem_gb=mem,
                   note="history of %d symbolic insert/remove operations, then one pattern query stepped to exhaustion" % cap_k) for n in names]
     return kprop.KSpec(
         package="sophia_inmem", crate_dir="inmem",
         harness_files={"inmem": [os.path.join(H, "vt.rs"), os.path.join(H, "c01_store.rs")]},
-        harnesses=hs, ordset=True, ordset_cap=cap_k, jobs=6 if tier == "quick" else 2,
+        harnesses=hs, ordset=True, ordset_cap=cap_k, jobs=6 if tier == "quick" else 3,
         encoded=["sophia_inmem::dataset::{GenericFastDataset,GenericLightDataset}::{insert,remove,quads_matching} (16-way / nested index selection, range bounds, permutation closures)",
                  "sophia_inmem::graph::{GenericFastGraph,GenericLightGraph}::{insert,remove,triples_matching}",
                  "sophia_inmem::{dataset,graph}::_iter::* (matching iterators with cached match flags)",
